@@ -10,7 +10,7 @@ use std::process::{Command, Stdio};
 use std::time::{Duration, Instant};
 use text2num::{find_numbers, find_numbers_iter, get_interpreter_for, replace_numbers_in_stream, replace_numbers_in_text, text2digits};
 
-pub const CHARS: [char; 18] = ['o', 'n', 'e', 'z', 't', '-', '\'', '.', ',', ' ', '\n', 'é', '\u{301}', '\u{a0}', 'İ', '1', '三', '😀'];
+pub const CHARS: [char; 19] = ['o', 'n', 'e', 'z', 't', '-', '\'', '.', ',', ' ', '\n', 'é', '\u{301}', '\u{a0}', 'İ', '1', '三', '😀', 'ẞ'];
 pub const THRS: [f64; 6] = [0.0, 10.0, -1.0, f64::INFINITY, f64::NEG_INFINITY, f64::NAN];
 
 const T_EXTREME: [f64; 2] = [0.0, f64::NAN];
@@ -412,7 +412,7 @@ pub fn run(tier: Tier) -> i32 {
     acc.nontrivial = acc.states;
     let cov = json!({
         "exhaustive": true,
-        "rule": "(a) every string of length <= k over 18 characters; (b) every sequence of <= k atoms over the full vocabulary plus {\"\",-,--,-a,a-} joined by space and by hyphen; (c) a fixed smoke list of long inputs (NOT an exhaustive space); each x 7 languages x {text2digits, replace_numbers_in_text, find_numbers, find_numbers_iter drained, replace_numbers_in_stream} x thresholds; get_interpreter_for on the strings of (a)",
+        "rule": "(a) every string of length <= k over 19 characters; (b) every sequence of <= k atoms over the full vocabulary plus {\"\",-,--,-a,a-} joined by space and by hyphen; (c) a fixed smoke list of long inputs (NOT an exhaustive space); each x 7 languages x {text2digits, replace_numbers_in_text, find_numbers, find_numbers_iter drained, replace_numbers_in_stream} x thresholds; get_interpreter_for on the strings of (a)",
         "characters": CHARS.iter().map(|c| format!("U+{:04X}", *c as u32)).collect::<Vec<_>>(),
         "bounds": {"a_max_len": tier.pick(4, 6), "a_len6_thresholds": "0, NaN only", "b_max_atoms": tier.pick(2, 3), "c_repetitions": tier.pick(3000, 20_000)},
         "thresholds": THRS.iter().map(|t| thr_name(*t)).collect::<Vec<_>>(),
